@@ -3,6 +3,7 @@ package auditd
 import (
 	"context"
 	"fmt"
+	"sync"
 	"time"
 
 	"github.com/elastic/go-libaudit/v2"
@@ -76,10 +77,32 @@ func (o *Auditd) Read(ctx context.Context) error {
 
 	defer reassembler.Close()
 
-	go maintainReassemblerLoop(ctx, reassembler, reassemblerInterval)
+	// The helper goroutines below feed events to the tracker. Stop them and
+	// wait for them before returning, so that nothing is written to the
+	// event writer after Read has returned. (This deferred function runs
+	// before reassembler.Close.)
+	ctx, stopHelpers := context.WithCancel(ctx)
+
+	var helpers sync.WaitGroup
+
+	defer func() {
+		stopHelpers()
+		helpers.Wait()
+	}()
+
+	helpers.Add(1)
+
+	go func() {
+		defer helpers.Done()
+		maintainReassemblerLoop(ctx, reassembler, reassemblerInterval)
+	}()
 
 	parseAuditLogsDone := make(chan error, 1)
+
+	helpers.Add(1)
+
 	go func() {
+		defer helpers.Done()
 		parseAuditLogsDone <- parseAuditLogs(ctx, o.Audits, reassembler)
 	}()
 
